@@ -10,9 +10,11 @@ CHECK = dict(
              "type, release (also from another goroutine), repeated release, cancel the context of any worker or the root context of all, context whose "
              "deadline already passed}; ~7 % of the cases come from a template that queues 3-4 waiters behind 3-5 active entries (priority function with a "
              "real choice). Engine 1 executes it under a generated schedule with exactly one goroutine running between pqueue's hook points (0-200 generated "
-             "choices, then run-until-blocked), engine 2 on free goroutines (GOMAXPROCS 1/2/4/16, 10 executions per case), engine 3 runs 2-6 concurrent "
-             "RegClient.BlobCopy calls between 1-3 model registries (reqConcurrent -1/0/1/2/3, mirrors) and an OCI layout, some cancelled before or at a "
-             "request. Non-trivial (engine 1) = the execution contained a cancellation racing with a release on the same queue (both enabled at one step, a "
+             "choices, then run-until-blocked), engine 2 on free goroutines (GOMAXPROCS 1/2/4/16, 10 executions per case), engine 3 runs 2-8 concurrent "
+             "client calls - RegClient.BlobCopy, BlobPut from seekable / unseekable / failing-seek / streamed sources, BlobGet read to the end / closed "
+             "early / closed by another goroutine, BlobHead, ManifestGet/Head/Put, TagList, ReferrerList - against 1-3 model registries (reqConcurrent "
+             "-1/0/1/2/3, mirrors) and an OCI layout, with 0-4 generated faults (status 5xx/429/408/4xx, reset before/after, truncated bodies), some calls "
+             "cancelled before or at a request. Non-trivial (engine 1) = the execution contained a cancellation racing with a release on the same queue (both enabled at one step, a "
              "select with both channels ready, or a slot handed to an already cancelled waiter) or an AcquireMulti over >=2 queues that met contention (a "
              "TryAcquire refused -> rollback, or blocked on its first queue); (engine 2) = a blocked waiter was really cancelled or two workers multi-acquire "
              "intersecting sets; (engine 3) = two or more live copies share a limited host. Distinct by the whole case.",
@@ -22,7 +24,7 @@ CHECK = dict(
                     race=dict(quick=False, thorough=True), shrinktime="10s"),
               # copy: thorough runs under the race detector (the data race it first reported in reghttp's sortHostsCmp
               # was repaired in /repo by 2a8301e)
-              rapid("copy", "TestVerifCopy", 1_200, 40_000, sq=4, st=16, race=dict(quick=False, thorough=True), shrinktime="10s")],
+              rapid("copy", "TestVerifCopy", 1_200, 40_000, sq=8, st=16, race=dict(quick=False, thorough=True), shrinktime="10s")],
         technique="property-based testing (rapid) of generated worker programs under (1) a schedule controller that owns every interleaving "
                   "point of internal/pqueue through build-tag hooks and (2) free-running goroutines with the race detector; oracles: "
                   "harness-side holder count, quiescence analysis (lost wake-up / deadlock), acquire result rules, final drain test",
